@@ -120,6 +120,13 @@ func c11Check(c *kit.Case, in c11Input) {
 	if err != nil {
 		c11Fail(c, cdc, v0, "encode", "Encode of an in-domain value failed: "+err.Error())
 	}
+	// --- cross-check of the independent reference serialiser (informative: it is what C13/C14 take positions from)
+	if ref, _, lerr := typegen.Layout(v0, seg, cdcLayoutHook); lerr != nil || !bytes.Equal(ref, enc0) {
+		c.Class("reference_serialiser_differs")
+		c.Class("reference_serialiser_differs_" + cdcShort(cdc.Name))
+	} else {
+		c.Class("reference_serialiser_agrees")
+	}
 	// --- determinism: 3 insertion orders x (fresh, pooled) + a re-used encoder = 8 encodings
 	hasMap := cdcHasMap(in.Node)
 	if hasMap {
